@@ -7,8 +7,8 @@
 EXTENDS Morton, Json, IOUtils, TLC
 
 Cases == ndJsonDeserialize(IOEnv.TRACE_FILE)
-VARIABLE tid
-vars == <<tid>>
+VARIABLES tid, done
+vars == <<tid, done>>
 
 CmcItem(c, it) ==
   LET chunk == <<c.cs, c.cs, c.cs>>
@@ -31,11 +31,12 @@ FirstBadIdx(c) ==
   LET B == {k \in 1..Len(c.items) : Item(c, k) # "ok"}
   IN IF B = {} THEN 0 ELSE CHOOSE k \in B : \A j \in B : k <= j
 
-Init == tid \in 1..Len(Cases)
-Next == UNCHANGED tid
+Init == tid \in 1..Len(Cases) /\ done = FALSE
+Next == ~done /\ done' = TRUE /\ UNCHANGED tid
 Spec == Init /\ [][Next]_vars
 
-Emit == LET c == Cases[tid]
+Emit == done =>
+        LET c == Cases[tid]
             k == FirstBadIdx(c)
         IN PrintT(<<"VERDICT", tid, IF k = 0 THEN "ok" ELSE "bad",
                     IF k = 0 THEN "ok" ELSE Item(c, k), k>>)
